@@ -4,10 +4,10 @@ import "golang.org/x/tools/go/ssa"
 
 func init() {
 	register(&Prop{
-		ID: "C04",
-		Decided: "(1) the four key encoders that partition rows (GroupAggregator.Add key, CountingWindow.getKey, extractSessionCompositeKey, GlobalWindow.getKeyAndValues) produce uniquely decodable keys: every raw component framed, NULL/missing distinct from every value, no impure input (keyenc); (2) function-expression group keys are injected before the row reaches Window.Add; (3) GetResults reports the typed key values recorded for the key it iterates.",
+		ID:         "C04",
+		Decided:    "(1) the four key encoders that partition rows (GroupAggregator.Add key, CountingWindow.getKey, extractSessionCompositeKey, GlobalWindow.getKeyAndValues) produce uniquely decodable keys: every raw component framed, NULL/missing distinct from every value, no impure input (keyenc); (2) function-expression group keys are injected before the row reaches Window.Add; (3) GetResults reports the typed key values recorded for the key it iterates.",
 		NotDecided: "the values of function-expression keys; that cast.ToString/%v map distinct values of one scalar type to distinct strings (floats by shortest round-trip); output naming under aliases.",
-		Run: runC04,
+		Run:        runC04,
 	})
 }
 
